@@ -661,6 +661,13 @@ func ruleLintVerdict(c *core.Ctx, rule string) {
 				}
 			}
 		}
+		// a formatted line that is given values to print (a count of errors) is a report, not the message, even when
+		// the exploration happens to know the value
+		if allConst && strings.HasSuffix(callee.String(), "Fprintf") && len(args) >= 3 {
+			if t, ok := args[2].(*absint.Term); ok && t.Op == "slice" {
+				allConst = false
+			}
+		}
 		if allConst {
 			s.SetData("okmsg", "1")
 			s.Event("message write at %s", c.P.Pos(site.Pos()))
